@@ -265,6 +265,14 @@ def _eval_both(model, zkind, rec, l, r):
                             any(p[1] != proto.index_of_kind('POK') for p in conv):
                         out.append(('exact', '%s: the earlier positional-or-keyword parameters are copied to the positional-only bucket but '
                                              'also stay in the positional-or-keyword bucket (every name twice: invalid signature)' % where))
+                    if conv and puts:
+                        i_conv = min(rec.puts.index(p_) for p_ in conv)
+                        i_cur = min(rec.puts.index(p_) for p_ in puts)
+                        if i_cur < i_conv and any(p_[1] == proto.index_of_kind('PO') for p_ in conv):
+                            out.append(('exact', '%s: the parameter is appended to the positional-only bucket before the earlier parameters are '
+                                                 'converted into it: it ends up in front of parameters that precede it' % where))
+                            out.append(('order', '%s: the parameter is appended to the positional-only bucket before the earlier parameters are '
+                                                 'converted into it: it ends up in front of parameters that precede it' % where))
                     if not conv:
                         out.append(('exact', '%s: earlier positional-or-keyword parameters are not converted to '
                                              'positional-only (invalid parameter order)' % where))
@@ -430,6 +438,14 @@ def _eval_own(model, zkind, rec, own, existing, missing):
                             any(p[1] != proto.index_of_kind('POK') for p in conv):
                         out.append(('exact', '%s: the earlier positional-or-keyword parameters are copied to the positional-only bucket but '
                                              'also stay in the positional-or-keyword bucket (every name twice: invalid signature)' % where))
+                    if conv and puts:
+                        i_conv = min(rec.puts.index(p_) for p_ in conv)
+                        i_cur = min(rec.puts.index(p_) for p_ in puts)
+                        if i_cur < i_conv and any(p_[1] == proto.index_of_kind('PO') for p_ in conv):
+                            out.append(('exact', '%s: the parameter is appended to the positional-only bucket before the earlier parameters are '
+                                                 'converted into it: it ends up in front of parameters that precede it' % where))
+                            out.append(('order', '%s: the parameter is appended to the positional-only bucket before the earlier parameters are '
+                                                 'converted into it: it ends up in front of parameters that precede it' % where))
                     if not conv:
                         out.append(('exact', '%s: earlier positional-or-keyword parameters are not converted to '
                                              'positional-only (invalid parameter order)' % where))
